@@ -422,3 +422,6 @@ func (c *Cluster) ForceRemovePod(ns, name string) {
 	c.rawDelete(GVKPod, ns, name)
 	c.tracef("pod force-removed %s/%s", ns, name)
 }
+
+// DeleteSetting removes a setting object.
+func (c *Cluster) DeleteSetting(ns, name string) { c.rawDelete(GVKSetting, ns, name) }
